@@ -22,11 +22,13 @@ Definition check_cronsys (c : json) : json :=
   let late := 150 <? jfZ "phase1_ms" c in   (* the set-up phase ran into the first due time: not judged *)
   let bad := filter (fun o => let '(ran, present) := expected ops (jfS "loc" o) (jfS "id" o) in
                               negb ((jfZ "ran" o =? ran) && Bool.eqb (jfB "present" o) present)) (jfL "obs" c) in
-  let good := late || match bad with [] => true | _ => false end in
+  let crashed := negb (String.eqb (jfS "crashed" c) "") in   (* the process died or hung while the jobs ran *)
+  let good := negb crashed && (late || match bad with [] => true | _ => false end) in
   let shared := existsb (fun id => (1 <? Z.of_nat (length (filter (fun l => String.eqb (last_op ops (jS l) (jS id)) "addsched") (jfL "locs" c)))))
                         (jfL "ids" c) in
   JObj [("ok", JBool good); ("at", JNull);
-        ("why", JStr (if good then "" else "a scheduled rule did not run exactly once in its own location, or ran after removal"));
+        ("why", JStr (if good then "" else if crashed then "the process did not survive the scheduled rules' due time"
+                      else "a scheduled rule did not run exactly once in its own location, or ran after removal"));
         ("model", match bad with o :: _ => o | [] => JNull end);
         ("spec_ok", JBool good);
         ("spec_why", JStr (match bad with
@@ -34,10 +36,13 @@ Definition check_cronsys (c : json) : json :=
                            | [] => "" end));
         ("spec_op", JStr "scheduled-rule-runs-once-in-its-location");
         (* (D38, cron.Rem of the head job did not re-arm the timer, is repaired in /repo: nothing is excused) *)
-        ("kf", JArr []);
+        (* D28 (e): LinearState.Load does not hand the stored scheduled rules to the add hook, so after a
+           restart with a non-persistent cron they are not registered again *)
+        ("kf", jstrs_of (if good || crashed then [] else if jfB "restart" c && jfB "linear" c then ["D28"] else []));
         ("features", jstrs_of ((if shared then ["same-id-scheduled-in-two-locations"] else []) ++
                                (if existsb (fun o => String.eqb (jfS "op" o) "remrule" && jfB "ok" o) ops then ["removed-before-due"] else []) ++
                                (if existsb (fun o => String.eqb (jfS "op" o) "addplain" && jfB "ok" o) ops then ["replaced-before-due"] else []) ++
+                               (if jfB "restart" c then ["restart"] else []) ++
                                (if late then ["late"] else []))%list);
         ("nontrivial", JBool shared);
         ("ambiguous", JNum (if late then 1 else 0))].
